@@ -39,7 +39,7 @@ def c03(tier, seed):
         {"type": "i2s", "name": "bounded histories (hook-free)", "spec": "Trace_Evaluator",
          "cmd": ["histories", q(tier, 3, 4), q(tier, 3, 3), "{trace}"], "heap": "6g"},
         {"type": "i2s", "name": "random sessions", "spec": "Trace_Evaluator",
-         "cmd": ["drive", "evaluator", "{seed}", q(tier, 300, 3000), "{trace}", "nonan"]},
+         "cmd": ["drive", "evaluator", "{seed}", q(tier, 600, 4000), "{trace}", "nonan"]},
         library_s2i(tier, "query"), repo_tests("query"), session_step(tier, "query"),
     ] + ([{"type": "apalache", "module": "AP_Evaluator", "inv": "Inv", "length": 6,
            "what": "<= 4 breakpoints and every query arbitrary integers, histories of <= 6 queries"},
